@@ -1185,17 +1185,23 @@ def r5_content_length(run):
     req, resp = _wsgi_locals(f)
     wsb = StatusBranches(p, f, cfg, ix, resp, '_wsgi_headers')
     btest = wsb.btest
-    unpack = None
+    # every `(body, length) = self._get_body(...)` (the body may be rendered again, under a try of its own, after a
+    # handled rendering failure): all of them bind the same two locals in the same order
+    unpacks = []
     for n in walk_self(f.node):
         if isinstance(n, ast.Assign) and isinstance(n.value, ast.Call) and dotted(n.value.func) == 'self._get_body' and len(n.targets) == 1 \
                 and isinstance(n.targets[0], ast.Tuple) and len(n.targets[0].elts) == 2 and all(isinstance(e, ast.Name) for e in n.targets[0].elts):
-            unpack = n
-    if unpack is None:
+            unpacks.append(n)
+    if not unpacks:
         raise AnchorError('%s: `(body, length) = self._get_body(...)` not found' % f.qual)
-    bv, lv = (e.id for e in unpack.targets[0].elts)
-    for name, okdef, what in ((lv, lambda dv: (dv[0] == 'unpack' and dv[1] is unpack.value and dv[2] == 1) or
+    pairs = {tuple(e.id for e in u.targets[0].elts) for u in unpacks}
+    if len(pairs) != 1:
+        raise UnknownIdiom('%s: the results of _get_body are bound to different locals: %s' % (f.qual, sorted(pairs)))
+    bv, lv = next(iter(pairs))
+    from_get_body = lambda v: any(v is u.value for u in unpacks)  # noqa: E731
+    for name, okdef, what in ((lv, lambda dv: (dv[0] == 'unpack' and from_get_body(dv[1]) and dv[2] == 1) or
                                (dv[0] == 'expr' and isinstance(dv[1], ast.Constant) and dv[1].value == 0), 'length'),
-                              (bv, lambda dv: (dv[0] == 'unpack' and dv[1] is unpack.value and dv[2] == 0) or
+                              (bv, lambda dv: (dv[0] == 'unpack' and from_get_body(dv[1]) and dv[2] == 0) or
                                (dv[0] == 'expr' and isinstance(dv[1], (ast.List, ast.Tuple)) and not dv[1].elts), 'body')):
         from .c04_helpers import defined_names
         for n in cfg.live_nodes():
@@ -1526,50 +1532,170 @@ def r6_close(run):
                   runtime_witness='file-like resp.stream whose read() raises after streaming began, server without wsgi.file_wrapper: '
                                   'the stream is closed by __next__ and again by the server\'s close()')
     # ---- WSGI _get_body wraps file-likes
+    _get_body_wrapping(run, c)
+
+
+def _get_body_wrapping(run, closer: Class):
+    """WSGI `_get_body`, decided per PATH of its CFG and not by the shape of
+    its statements.  The function is evaluated over the four cells of
+    (stream has read()?, server supplied wsgi.file_wrapper?): in each cell the
+    branch edges the cell contradicts are pruned, and every value a streamed
+    return (`return <X>, None`) can carry along the remaining paths - locals
+    through the definitions that reach the return on those paths, conditional
+    expressions through the arm the cell selects - must be right for the cell:
+      * X is resp.stream itself  -> only in the cells without read()
+      * X is the server's file wrapper called on the stream -> only in the
+        cell (read(), wrapper supplied)
+      * X is CloseableStreamIterator(stream, ...) -> only in the cells with read()
+    `if c: x = A else: x = B; return x, None`, `x = B; if c: x = A`,
+    `if not c: return B, None` + fall-through and `return (A if c else B), None`
+    are the same paths.
+    Runtime witness: a temp-file resp.stream under a server without
+    wsgi.file_wrapper is iterated line by line and never closed."""
+    p = run.project
     g = effective_method(p, WSGI_APP, '_get_body')
     gcfg = cfg_of(g, p)
+    run.use_cfg(gcfg)
     gix = Index(gcfg)
     resp = param_at(g, 1, 'resp')
     wrapper = param_at(g, 2, 'wsgi_file_wrapper')
     s_al = aliases(g, lambda e: attr_of(e, resp, ('stream',)))
-    is_gs = lambda e: isinstance(e, ast.Name) and e.id in s_al  # noqa: E731
+
+    def is_gs(e):
+        return (isinstance(e, ast.Name) and e.id in s_al) or attr_of(e, resp, ('stream',))
 
     def is_filelike(e):
         return (isinstance(e, ast.Call) and is_name(e.func, 'hasattr') and len(e.args) == 2 and is_gs(e.args[0])
                 and isinstance(e.args[1], ast.Constant) and e.args[1].value == 'read')
 
-    n_ob = 0
+    is_w = lambda e: is_name(e, wrapper)  # noqa: E731
+    for n in walk_self(g.node):
+        if isinstance(n, ast.Name) and n.id == wrapper and isinstance(n.ctx, (ast.Store, ast.Del)):
+            raise UnknownIdiom('%s: the parameter %s is rebound' % (g.qual, wrapper))
+    from .c04_helpers import defined_names
+    def_nodes: Dict[str, Set[int]] = {}
+    for n in gcfg.live_nodes():
+        for nm in defined_names(n):
+            def_nodes.setdefault(nm, set()).add(n.id)
+
+    def cell_atom(fl: bool, wp: bool):
+        def atom(e):
+            if is_filelike(e):
+                return fl
+            pol = none_test(e, is_w)
+            if pol is not None:
+                return pol == (not wp)
+            if is_w(e):
+                return wp       # a supplied wrapper is a callable object: truthy
+            return None
+        return atom
+
+    def stream_arg(call, t) -> bool:
+        """the stream is the wrapped object (first positional argument, or the
+        keyword naming the first parameter of a resolved constructor)"""
+        if call.args:
+            return is_gs(call.args[0])
+        if isinstance(t, Class):
+            init = effective_method(p, t.qual, '__init__')
+            first = param_at(init, 1, 'wrapped stream')
+            for kw in call.keywords:
+                if kw.arg == first:
+                    return is_gs(kw.value)
+        return False
+
+    what_plain = 'WSGI _get_body: only a stream without read() is returned as it is'
+    what_wrap = ('WSGI _get_body: a file-like stream is wrapped by the server file wrapper or CloseableStreamIterator '
+                 '(both close it)')
+    what_present = 'WSGI _get_body: the server file wrapper is called only when the server supplied one'
+    cell_text = lambda fl, wp: '%s stream, server %s wsgi.file_wrapper' % (  # noqa: E731
+        'file-like' if fl else 'iterable (no read())', 'with' if wp else 'without')
+    verdicts: Dict[Tuple[str, int], List] = {}     # (what, defining node) -> [ok in every cell, cells where not]
+
+    def note(what, d, ok, fl, wp):
+        v = verdicts.setdefault((what, d), [True, []])
+        if not ok:
+            v[0] = False
+            v[1].append(cell_text(fl, wp))
+
+    rets = []
     for r in [n for n in gcfg.live_nodes() if n.kind == 'stmt' and isinstance(n.ast, ast.Return)]:
         v = r.ast.value
-        if not (isinstance(v, ast.Tuple) and len(v.elts) == 2 and isinstance(v.elts[1], ast.Constant) and v.elts[1].value is None):
-            continue
-        it = v.elts[0]
-        if not isinstance(it, ast.Name):
-            raise UnknownIdiom('%s: streamed iterable %s' % (g.qual, short(it)))
-        for d in gix.defs_reaching(r.id, it.id):
-            dv = def_value(gcfg, d, it.id)
-            if dv[0] != 'expr':
-                raise UnknownIdiom('%s: definition of %s' % (g.qual, it.id))
-            e = dv[1]
-            facts = gix.facts(d)
-            filelike = refuted(facts, lambda x: False if is_filelike(x) else None)
-            not_filelike = refuted(facts, lambda x: True if is_filelike(x) else None)
-            n_ob += 1
-            if is_gs(e):
-                run.check(not_filelike, 'WSGI _get_body: only a stream without read() is returned as it is', g, gcfg.node(d).ast,
-                          where='%s:%s' % (g.file, gcfg.node(d).lineno),
-                          runtime_witness='a file-like stream is iterated line by line instead of in blocks')
-            elif isinstance(e, ast.Call) and e.args and is_gs(e.args[0]):
-                t = p.callee(g, e)
-                ok = (isinstance(t, Class) and t.qual == c.qual) or is_name(e.func, wrapper)
-                run.check(ok and filelike, 'WSGI _get_body: a file-like stream is wrapped by the server file wrapper or CloseableStreamIterator '
-                                          '(both close it)', g, gcfg.node(d).ast, where='%s:%s' % (g.file, gcfg.node(d).lineno),
-                          runtime_witness='the response stream is never closed')
-            else:
-                run.fail('WSGI _get_body: a file-like stream is wrapped by the server file wrapper or CloseableStreamIterator (both close it)',
-                         g, gcfg.node(d).ast, where='%s:%s' % (g.file, gcfg.node(d).lineno), runtime_witness='the response stream is never closed')
-    if not n_ob:
+        if isinstance(v, ast.Tuple) and len(v.elts) == 2 and isinstance(v.elts[1], ast.Constant) and v.elts[1].value is None:
+            rets.append(r)
+    if not rets:
         raise AnchorError('%s: no streamed return found' % g.qual)
+    for fl in (True, False):
+        for wp in (True, False):
+            atom = cell_atom(fl, wp)
+            filt = pruned(gcfg, atom, flow.no_exc)
+            live = flow.reachable(gcfg, [gcfg.entry], edge_filter=filt)
+
+            def values(e, nid, depth=0):
+                """[(leaf expression, id of the node that holds it)] on the paths of this cell"""
+                if depth > 6:
+                    raise UnknownIdiom('%s: definition chain of the streamed iterable is too long' % g.qual)
+                if is_gs(e):
+                    return [(e, nid)]
+                if isinstance(e, ast.IfExp):
+                    t = eval3(e.test, atom)
+                    out = []
+                    if t is not False:
+                        out += values(e.body, nid, depth + 1)
+                    if t is not True:
+                        out += values(e.orelse, nid, depth + 1)
+                    return out
+                if isinstance(e, ast.Name):
+                    out = []
+                    n_defs = 0
+                    for d in gix.defs_reaching(nid, e.id):
+                        others = def_nodes.get(e.id, set()) - {d}
+                        if d not in live:
+                            continue
+                        starts = [y for (y, l) in gcfg.succ[d] if filt(d, y, l) and y not in others]
+                        if nid not in starts and flow.find_path(gcfg, starts, [nid], avoid_nodes=others, edge_filter=filt) is None:
+                            continue    # overwritten, or cut off by the cell, before it gets here
+                        n_defs += 1
+                        dv = def_value(gcfg, d, e.id)
+                        if dv[0] != 'expr' or dv[1] is None:
+                            raise UnknownIdiom('%s: definition of %s' % (g.qual, e.id))
+                        out.extend(values(dv[1], d, depth + 1))
+                    if not n_defs:
+                        raise UnknownIdiom('%s: %s has no definition reaching the streamed return' % (g.qual, e.id))
+                    return out
+                return [(e, nid)]
+
+            for r in rets:
+                if r.id not in live:
+                    continue
+                for (e, d) in values(r.ast.value.elts[0], r.id):
+                    if is_gs(e):
+                        note(what_plain, d, not fl, fl, wp)
+                        continue
+                    if not any(is_gs(x) for x in ast.walk(e)):
+                        raise UnknownIdiom('%s: streamed iterable %s does not come from %s.stream' % (g.qual, short(e), resp))
+                    if not isinstance(e, ast.Call):
+                        raise UnknownIdiom('%s: streamed iterable %s' % (g.qual, short(e)))
+                    if is_w(e.func):
+                        note(what_wrap, d, stream_arg(e, None) and fl, fl, wp)
+                        note(what_present, d, wp, fl, wp)
+                        continue
+                    t = p.callee(g, e)
+                    if isinstance(t, Class) and t.qual == closer.qual:
+                        note(what_wrap, d, stream_arg(e, t) and fl, fl, wp)
+                    elif isinstance(t, str) and t.startswith('builtins.') and fl:
+                        # iter(lambda: stream.read(n), b''), map(...), ...: no builtin closes what it iterates
+                        note(what_wrap, d, False, fl, wp)
+                    else:
+                        raise UnknownIdiom('%s: streamed iterable built by %s (not the server file wrapper, not %s)'
+                                           % (g.qual, short(e.func), closer.qual))
+    if not verdicts:
+        raise AnchorError('%s: no streamed return is reachable' % g.qual)
+    for (what, d), (ok, cells) in sorted(verdicts.items(), key=lambda kv: (kv[0][1], kv[0][0])):
+        rw = {what_plain: 'a file-like stream is iterated line by line instead of in blocks and is not closed through our wrapper',
+              what_wrap: 'the response stream is never closed',
+              what_present: 'file-like resp.stream under a server without wsgi.file_wrapper: None(stream, size) -> TypeError, 500'}[what]
+        run.check(ok, what, g, gcfg.node(d).ast, where='%s:%s' % (g.file, gcfg.node(d).lineno),
+                  witness=['wrong for: ' + c for c in cells] or None, runtime_witness=rw + (' [%s]' % '; '.join(cells) if cells else ''))
 
 
 # ---------------------------------------------------------------------------
@@ -2746,4 +2872,8 @@ def check(run):
     run.assume('an exception raised while the SSE emitter runs (event construction, serialize, the generator itself) after '
                'http.response.start propagates out of asgi.App.__call__: the framework has no handler there and does not send the final '
                'body event - closing such a stream is left to the server; R13 only keeps documented events from raising')
+    from . import c04 as _c04
+
+    run.rule('R14', _c04.r1_render_calls_protected, 'every call of the body renderer in __call__ is protected by `except Exception` -> '
+             '_handle_exception: a rendering failure never leaves the app callable without a response start (shared with C04 R1)', floor=2)
     run.rule('R13', r13_sse_ctor, 'SSEvent.__init__ rejects only wrongly typed arguments: no value of a documented type raises in mid-stream', floor=6)
